@@ -432,15 +432,48 @@ let extras c model_out =
                                                           false, false,
                                                           false, true,
                                                           false)), (String
-                                                          ((Ascii (false,
+                                                          ((Ascii (true,
                                                           false, false,
                                                           false, true, true,
                                                           false, false)),
                                                           (String ((Ascii
-                                                          (true, true, true,
+                                                          (true, true, false,
                                                           false, true, true,
                                                           false, false)),
-                                                          EmptyString))))))))),
+                                                          (String ((Ascii
+                                                          (true, true, false,
+                                                          false, true, true,
+                                                          true, false)),
+                                                          (String ((Ascii
+                                                          (false, false,
+                                                          true, true, false,
+                                                          true, true,
+                                                          false)), (String
+                                                          ((Ascii (true,
+                                                          true, true, true,
+                                                          false, true, true,
+                                                          false)), (String
+                                                          ((Ascii (false,
+                                                          false, true, false,
+                                                          true, true, true,
+                                                          false)), (String
+                                                          ((Ascii (true,
+                                                          true, false, false,
+                                                          true, true, true,
+                                                          false)),
+                                                          EmptyString))))))))))))))))))),
+  (b2s (slot_dynamic_ok e.e_unres real))) :: (((s_ (String ((Ascii (true,
+                                                 true, true, true, false,
+                                                 true, true, false)), (String
+                                                 ((Ascii (true, true, false,
+                                                 false, false, false, true,
+                                                 false)), (String ((Ascii
+                                                 (false, false, false, false,
+                                                 true, true, false, false)),
+                                                 (String ((Ascii (true, true,
+                                                 true, false, true, true,
+                                                 false, false)),
+                                                 EmptyString))))))))),
   (b2s
     ((||) (jsx_free real) (match rdiags with
                            | [] -> false
@@ -947,7 +980,7 @@ let extras c model_out =
               (true, false, true, false, true, true, true, false)), (String
               ((Ascii (false, false, true, false, true, true, true, false)),
               EmptyString)))))))))))) alt)
-     else true))) :: [])))))))))))))))
+     else true))) :: []))))))))))))))))
 
 (** val regex_table : jv -> str -> bool **)
 
